@@ -332,11 +332,22 @@ func wirePresence(c *C, r *Root, m protoreflect.Message, in map[string]any) {
 		onWire[num] = true
 		rest = rest[n:]
 	}
+	// numbers that (also) occur among the unknown fields (a known number with a wrong wire type, kept from a
+	// corrupted input) say nothing about the field's presence
+	inUnknown := map[protowire.Number]bool{}
+	for rest := []byte(m.GetUnknown()); len(rest) > 0; {
+		num, _, n := protowire.ConsumeField(rest)
+		if n < 0 {
+			break
+		}
+		inUnknown[num] = true
+		rest = rest[n:]
+	}
 	in2 := map[string]any{"type": in["type"], "family": in["family"], "ops": in["ops"], "bytes": vh.Hex(b)}
 	fds := m.Descriptor().Fields()
 	for i := 0; i < fds.Len(); i++ {
 		fd := fds.Get(i)
-		if fd.IsList() || fd.IsMap() || fd.Message() != nil {
+		if fd.IsList() || fd.IsMap() || fd.Message() != nil || inUnknown[fd.Number()] {
 			continue
 		}
 		c.Check(onWire[fd.Number()] == m.Has(fd), fmt.Sprintf("field %s: Has=%v but a record with its number is on the wire: %v", fd.Name(), m.Has(fd), onWire[fd.Number()]), in2, "")
